@@ -360,7 +360,7 @@ def analyse(spec, W=None, threshold=None, timeout=10, delay=None, shim=None, wan
 
 
 # ------------------------------------------------------------------ counting paths before searching
-def path_count(spec, cap=10 ** 7):
+def path_count(spec, cap=10 ** 7, with_work=False):
     """Number of paths root -> root+offset in the doubled graph, summed over roots (DP over the DAG),
     computed on the graph the implementation builds -- without enumerating."""
     from osaca.semantics import KernelDG
@@ -377,6 +377,7 @@ def path_count(spec, cap=10 ** 7):
     dg = k.create_DG(tmp)
     order = sorted(dg.nodes)
     total = 0
+    work = 0      # size of the DFS trees all_simple_paths walks (it does not prune nodes that cannot reach the target)
     for r in [i.line_number for i in kernel]:
         cnt = {r: 1}
         for n in order:
@@ -387,9 +388,10 @@ def path_count(spec, cap=10 ** 7):
                 if m <= r + off:
                     cnt[m] = cnt.get(m, 0) + c
         total += cnt.get(r + off, 0)
+        work += sum(cnt.values())
         if total > cap:
-            return total
-    return total
+            break
+    return (total, work) if with_work else total
 
 
 # ------------------------------------------------------------------ Coq rendering
@@ -437,7 +439,8 @@ def main():
     for j in jobs:
         try:
             if j.get("op") == "count":
-                out.append({"count": path_count(j["spec"], j.get("cap", 10 ** 7))})
+                c, w = path_count(j["spec"], j.get("cap", 10 ** 7), with_work=True)
+                out.append({"count": c, "work": w})
             else:
                 kw = {k: j[k] for k in ("W", "threshold", "timeout", "delay", "shim", "want_paths", "report") if k in j}
                 out.append(analyse(j["spec"], **kw))
